@@ -103,7 +103,7 @@ where
                 if msg.contains("Out of registers") || msg.contains("Out of temporaries") {
                     return Ok(false); // beyond the backend's documented capacity
                 }
-                return Err(Failure { what: format!("the code generator panicked: {msg}"), input: format!("generator seed {seed}"), instructions: show(&lin), detail: String::new() });
+                return Err(Failure { what: format!("the code generator panicked: {msg}"), input: format!("generator seed {seed}, depth {depth}, max_env {max_env}"), instructions: show(&lin), detail: String::new() });
             }
         }
     };
@@ -128,7 +128,7 @@ where
         }
     }
     let exit = st.exec(&code);
-    let fail = |what: String| Failure { what, input: format!("generator seed {seed}, depth {depth}, main arguments {args:?}"), instructions: show(&lin), detail: M::render(&code).join("\n") };
+    let fail = |what: String| Failure { what, input: format!("generator seed {seed}, depth {depth}, max_env {max_env}, main arguments {args:?}"), instructions: show(&lin), detail: M::render(&code).join("\n") };
     let ok_exit = match tgt.into_routine {
         Some(_) => exit == Exit::Ret,
         None => exit == Exit::Label("cleanup".into()),
